@@ -98,6 +98,13 @@ def normalize(expression: E) -> E:
         if not any(join.args.get(k) for k in JOIN_ATTRS):
             join.set("kind", "CROSS")
 
+        on = join.args.get("on")
+        if join.kind == "CROSS" and (
+            join.args.get("using") or (on and not (isinstance(on, exp.Boolean) and on.this))
+        ):
+            # CROSS JOIN ... ON <condition> (MySQL, SQLite) is an inner join
+            join.set("kind", None)
+
         if join.kind == "CROSS":
             join.set("on", None)
         else:
